@@ -101,6 +101,9 @@ func (t *tr2) identExpr(x *ast.Ident) string {
 		if isSlice(ty) && (isBytes(ty) || isBoolList(ty)) {
 			return "[]"
 		}
+		if _, ok := t.isStructList(ty); ok {
+			return "[]"
+		}
 		t.fail(x, "nil of unsupported type %s", ty)
 		return "tt"
 	}
@@ -169,14 +172,65 @@ func (t *tr2) selector(x *ast.SelectorExpr, bs *[]bind) string {
 			t.fail(x, "field %s.%s has a type outside the subset", r.name, f.goName)
 			return "0"
 		}
+		if f.ext != "" && !t.extOK {
+			t.fail(x, "external function field %s.%s may only be called or compared with nil", r.name, f.goName)
+			return "0"
+		}
 		out = "(" + t.q(r.mod, f.coq) + " " + out + ")"
 		cur = f.ty
 	}
 	return out
 }
 
+// extFieldOf: x selects a registered external function field; returns the record, the field and
+// the index path is of length one.
+func (t *tr2) extFieldOf(e ast.Expr) (*ast.SelectorExpr, *recInfo, *recField) {
+	x, ok := e.(*ast.SelectorExpr)
+	if !ok {
+		return nil, nil, nil
+	}
+	sel := t.info.Selections[x]
+	if sel == nil || sel.Kind() != types.FieldVal || len(sel.Index()) != 1 {
+		return nil, nil, nil
+	}
+	bt := t.info.TypeOf(x.X)
+	var nn *types.Named
+	if n, _, ok := namedStruct(bt); ok {
+		nn = n
+	} else if n, ok := ptrStruct(bt); ok {
+		nn = n
+	}
+	if nn == nil || !t.typeOK(nn) {
+		return nil, nil, nil
+	}
+	r := t.record(nn)
+	f := &r.fields[sel.Index()[0]]
+	if f.ext == "" {
+		return nil, nil, nil
+	}
+	return x, r, f
+}
+
+// structValue: the value of the struct an external field belongs to (dereferenced).
+func (t *tr2) structValue(x ast.Expr, bs *[]bind) string {
+	v := t.expr(x, bs)
+	if _, isP := t.info.TypeOf(x).Underlying().(*types.Pointer); isP {
+		tmp := t.freshTmp()
+		*bs = append(*bs, bind{pat: tmp, rhs: "(go_deref " + v + ")"})
+		return tmp
+	}
+	return v
+}
+
 func (t *tr2) index(x *ast.IndexExpr, bs *[]bind) string {
 	bt := t.info.TypeOf(x.X)
+	if _, ok := t.isStructList(bt); ok {
+		base := t.expr(x.X, bs)
+		idx := t.expr(x.Index, bs)
+		tmp := t.freshTmp()
+		*bs = append(*bs, bind{pat: tmp, rhs: "(go_index_g " + base + " " + idx + ")"})
+		return tmp
+	}
 	if !isBytes(bt) {
 		t.fail(x, "index into unsupported type %s", bt)
 		return "0"
@@ -196,6 +250,23 @@ func (t *tr2) index(x *ast.IndexExpr, bs *[]bind) string {
 // slice translates x[lo:hi]; returns the value, the base value and lo.
 func (t *tr2) slice(x *ast.SliceExpr, bs *[]bind) (val, base, lo string) {
 	bt := t.info.TypeOf(x.X)
+	if _, ok := t.isStructList(bt); ok && !x.Slice3 {
+		base = t.expr(x.X, bs)
+		lo = "0"
+		if x.Low != nil {
+			lo = t.expr(x.Low, bs)
+		}
+		hi := "(Z.of_nat (length " + base + "))"
+		if x.High != nil {
+			hi = t.expr(x.High, bs)
+		}
+		if x.Low == nil && x.High == nil {
+			return base, base, "0"
+		}
+		tmp := t.freshTmp()
+		*bs = append(*bs, bind{pat: tmp, rhs: "(go_slice_g " + base + " " + lo + " " + hi + ")"})
+		return tmp, base, lo
+	}
 	if !isBytes(bt) {
 		t.fail(x, "slice of unsupported type %s", bt)
 		return "[]", "[]", "0"
@@ -334,6 +405,14 @@ func (t *tr2) binary(x *ast.BinaryExpr, bs *[]bind) string {
 				o = x.Y
 			}
 			ot := t.info.TypeOf(o)
+			if sx, r, f := t.extFieldOf(o); f != nil && f.ext == "call" {
+				d := t.structValue(sx.X, bs)
+				s = "(negb (" + t.q(r.mod, f.coq) + " " + d + "))"
+				if x.Op == token.NEQ {
+					return "(negb " + s + ")"
+				}
+				return s
+			}
 			ov := t.expr(o, bs)
 			if isErrorType(ot) {
 				s = "(goerr_is_nil " + ov + ")"
@@ -344,6 +423,15 @@ func (t *tr2) binary(x *ast.BinaryExpr, bs *[]bind) string {
 			} else {
 				t.fail(x, "comparison with nil on unsupported type %s", ot)
 				s = "true"
+			}
+		case func() bool { _, _, ok := namedStruct(lt); return ok && t.typeOK(lt) }():
+			nn, _, _ := namedStruct(lt)
+			r := t.record(nn)
+			if _, ok := t.recEqb(r); !ok {
+				t.fail(x, "== on struct %s, which has a field that is not comparable in the subset", r.name)
+				s = "true"
+			} else {
+				s = "(" + t.q(r.mod, "eqb_"+r.name) + " " + t.expr(x.X, bs) + " " + t.expr(x.Y, bs) + ")"
 			}
 		case isBool(lt):
 			s = "(Bool.eqb " + t.expr(x.X, bs) + " " + t.expr(x.Y, bs) + ")"
@@ -388,6 +476,9 @@ func (t *tr2) binary(x *ast.BinaryExpr, bs *[]bind) string {
 
 func (t *tr2) composite(x *ast.CompositeLit, bs *[]bind) string {
 	ty := t.info.TypeOf(x)
+	if _, ok := absIntKind(ty); ok && len(x.Elts) == 0 {
+		return "0" // time.Time{}
+	}
 	if nn, st, ok := namedStruct(ty); ok && t.typeOK(ty) {
 		r := t.record(nn)
 		vals := map[int]string{}
@@ -422,7 +513,7 @@ func (t *tr2) composite(x *ast.CompositeLit, bs *[]bind) string {
 			if v, ok := vals[i]; ok {
 				parts = append(parts, v)
 			} else {
-				parts = append(parts, t.zero(x, st.Field(i).Type()))
+				parts = append(parts, t.fieldZero(x, f))
 			}
 		}
 		return "(" + strings.Join(parts, " ") + ")"
@@ -608,6 +699,50 @@ func (t *tr2) call(x *ast.CallExpr, bs *[]bind) string {
 			}
 		}
 	}
+	// call of a registered external function field: x.f(args)
+	if sx, r, f := t.extFieldOf(x.Fun); f != nil {
+		d := t.structValue(sx.X, bs)
+		if f.ext == "read" {
+			return "(" + t.q(r.mod, f.coq) + " " + d + ")"
+		}
+		args := t.args(x, f.extSig, bs)
+		chk := t.freshTmp()
+		*bs = append(*bs, bind{pat: chk, rhs: "(if (" + t.q(r.mod, f.coq) + " " + d + ") then GOk tt else GPanic)"}) // nil function value
+		av := "tt"
+		if len(args) == 1 {
+			av = args[0]
+		} else if len(args) > 1 {
+			av = "(" + strings.Join(args, ", ") + ")"
+		}
+		logf := t.q(r.mod, f.coq+"_log")
+		nd := "(" + t.q(r.mod, "set_"+f.coq+"_log") + " " + d + " ((" + logf + " " + d + ") ++ [" + av + "]))"
+		if _, isP := t.info.TypeOf(sx.X).Underlying().(*types.Pointer); isP {
+			nd = "(Some " + nd + ")"
+		}
+		if !t.ownedRoot(sx.X) {
+			t.fail(x, "call of the external function field %s.%s: its struct must be a local owned by this function (own receiver, fresh pointer, struct value)", r.name, f.goName)
+			return "tt"
+		}
+		t.assignOwned(sx.X, nd, bs)
+		if f.extSig.Results().Len() == 1 {
+			return "(" + t.q(r.mod, f.coq+"_ret") + " " + d + ")"
+		}
+		return "tt"
+	}
+	// methods of library value types modelled as int64 (time.Time)
+	if f, ok := x.Fun.(*ast.SelectorExpr); ok {
+		if sel := t.info.Selections[f]; sel != nil && sel.Kind() == types.MethodVal {
+			if k, isAbs := absIntKind(t.info.TypeOf(f.X)); isAbs {
+				if f.Sel.Name == "Sub" && len(x.Args) == 1 {
+					a := t.expr(f.X, bs)
+					b := t.expr(x.Args[0], bs)
+					return wrap(k, "("+a+" - "+b+")")
+				}
+				t.fail(x, "method %s of %s is not modelled (only Sub)", f.Sel.Name, t.info.TypeOf(f.X))
+				return "0"
+			}
+		}
+	}
 	var callee *types.Func
 	var recv ast.Expr
 	var recvPath []int
@@ -690,16 +825,9 @@ func (t *tr2) call(x *ast.CallExpr, bs *[]bind) string {
 		// state-passing callee: the updated receiver is written back into the receiver operand,
 		// which must be a local this function owns (a fresh pointer, its own mutable receiver, or
 		// a struct-valued local), possibly through embedded fields
-		id, isId := recv.(*ast.Ident)
-		ok := false
-		if isId {
-			o := t.info.Uses[id]
-			_, isP := t.info.TypeOf(id).Underlying().(*types.Pointer)
-			rootPtr = isP
-			if v, isV := o.(*types.Var); isV && !(v.Pkg() != nil && v.Parent() == v.Pkg().Scope()) {
-				ok = !isP || t.fresh[o] || (t.mutRecv != nil && o == t.mutRecv)
-			}
-		}
+		_, isP := t.info.TypeOf(recv).Underlying().(*types.Pointer)
+		rootPtr = isP
+		ok := t.ownedRoot(recv)
 		if !ok {
 			t.fail(x, "call of the receiver-mutating method %s: the receiver must be a local owned by this function (fresh pointer, own receiver, or struct value)", fi.name)
 			return "0"
@@ -762,7 +890,7 @@ func (t *tr2) call(x *ast.CallExpr, bs *[]bind) string {
 		if rootPtr {
 			val = "(Some " + val + ")"
 		}
-		t.assign(recv, val, bs)
+		t.assignOwned(recv, val, bs)
 		return res
 	}
 	return tmp
@@ -846,7 +974,21 @@ func (t *tr2) builtin(name string, x *ast.CallExpr, bs *[]bind) string {
 		if len(x.Args) == 1 && isBoolList(t.info.TypeOf(x.Args[0])) {
 			return "(Z.of_nat (length " + t.expr(x.Args[0], bs) + "))"
 		}
+		if _, ok := t.isStructList(t.info.TypeOf(x.Args[0])); ok && len(x.Args) == 1 {
+			return "(Z.of_nat (length " + t.expr(x.Args[0], bs) + "))"
+		}
 	case "append":
+		if _, ok := t.isStructList(t.info.TypeOf(x.Args[0])); ok && len(x.Args) >= 1 && x.Ellipsis == token.NoPos {
+			dst := t.exprAs(x.Args[0], t.info.TypeOf(x), bs)
+			elems := []string{}
+			for _, a := range x.Args[1:] {
+				elems = append(elems, t.expr(a, bs))
+			}
+			if len(elems) == 0 {
+				return dst
+			}
+			return "(" + dst + " ++ [" + strings.Join(elems, "; ") + "])"
+		}
 		if len(x.Args) >= 1 && isSlice(t.info.TypeOf(x.Args[0])) && isBytes(t.info.TypeOf(x.Args[0])) {
 			dst := t.exprAs(x.Args[0], t.info.TypeOf(x), bs)
 			if x.Ellipsis != token.NoPos {
@@ -955,4 +1097,87 @@ func recvName(f *types.Func) string {
 		return n.Obj().Name() + "."
 	}
 	return "?."
+}
+
+// ownedRoot: e is a local this function owns (a struct-valued local, a fresh pointer, the receiver of
+// a state-passing method), or a field path from one. The pointee of a pointer FIELD on that path
+// is treated as part of the owner's state (sharing with other objects is not modelled).
+func (t *tr2) ownedRoot(e ast.Expr) bool {
+	for {
+		switch x := e.(type) {
+		case *ast.ParenExpr:
+			e = x.X
+			continue
+		case *ast.SelectorExpr:
+			if sel := t.info.Selections[x]; sel == nil || sel.Kind() != types.FieldVal {
+				return false
+			}
+			e = x.X
+			continue
+		case *ast.Ident:
+			o := t.info.Uses[x]
+			v, isV := o.(*types.Var)
+			if !isV || (v.Pkg() != nil && v.Parent() == v.Pkg().Scope()) {
+				return false
+			}
+			_, isP := v.Type().Underlying().(*types.Pointer)
+			return !isP || t.fresh[o] || (t.mutRecv != nil && o == t.mutRecv)
+		}
+		return false
+	}
+}
+
+// assignOwned stores val at the owned path e (ownedRoot(e) holds); a pointer field on the path is
+// written through (its pointee belongs to the owner).
+func (t *tr2) assignOwned(e ast.Expr, val string, bs *[]bind) {
+	switch x := e.(type) {
+	case *ast.ParenExpr:
+		t.assignOwned(x.X, val, bs)
+	case *ast.Ident:
+		t.assign(x, val, bs)
+	case *ast.SelectorExpr:
+		sel := t.info.Selections[x]
+		bt := t.info.TypeOf(x.X)
+		base := t.expr(x.X, bs)
+		_, viaPtr := bt.Underlying().(*types.Pointer)
+		if viaPtr {
+			tmp := t.freshTmp()
+			*bs = append(*bs, bind{pat: tmp, rhs: "(go_deref " + base + ")"})
+			base = tmp
+		}
+		cur := bt
+		// walk the (possibly promoted) field path, remembering the setters
+		type st struct{ setter, base string }
+		var steps []st
+		for _, ix := range sel.Index() {
+			var nn *types.Named
+			if n, _, ok := namedStruct(cur); ok {
+				nn = n
+			} else if n, ok := ptrStruct(cur); ok {
+				nn = n
+			}
+			if nn == nil || !t.typeOK(nn) {
+				t.fail(x, "assignment through unsupported type %s", cur)
+				return
+			}
+			r := t.record(nn)
+			f := r.fields[ix]
+			if !f.ok {
+				t.fail(x, "field %s.%s has a type outside the subset", r.name, f.goName)
+				return
+			}
+			steps = append(steps, st{setter: t.q(r.mod, "set_"+f.coq), base: base})
+			base = "(" + t.q(r.mod, f.coq) + " " + base + ")"
+			cur = f.ty
+		}
+		for i := len(steps) - 1; i >= 0; i-- {
+			val = "(" + steps[i].setter + " " + steps[i].base + " " + val + ")"
+		}
+		if viaPtr {
+			val = "(Some " + val + ")"
+		}
+		t.assignOwned(x.X, val, bs)
+	default:
+		t.fail(e, "unsupported owned path %T", e)
+	}
 }
